@@ -71,8 +71,9 @@ def run(ctx, prop, rule="T7-constant"):
     groups = {}
     for w in ws:
         groups.setdefault(tuple(w[2]), []).append(w)
-    wdir = os.path.join(WORK, "witness")
-    os.makedirs(wdir, exist_ok=True)
+    import tempfile
+    os.makedirs(os.path.join(WORK, "witness"), exist_ok=True)
+    wdir = tempfile.mkdtemp(prefix="w", dir=os.path.join(WORK, "witness"))
     flags = _flags()
     n = 0
     for gi, (incs, items) in enumerate(sorted(groups.items())):
@@ -107,4 +108,6 @@ def run(ctx, prop, rule="T7-constant"):
                         "compile-time witness failed: %s  (%s)" % (w[3], w[4]), subject=w[1])
             else:
                 ctx.ok(rule, w[1], site, "_Static_assert(%s) holds (%s)" % (w[3], w[4]))
+    import shutil
+    shutil.rmtree(wdir, ignore_errors=True)
     return n
